@@ -29,6 +29,9 @@ DOCS = [
     '$mat(a \\ )$\n', '$a / \\ $\n', '#f[- a \\ ]\n', '#[a \\ ]\n', '$ (a \\ ) $\n', '*a \\ *\n', '_a \\ _\n', '= a \\ \n', '- a \\ \n', '+ a \\ \n', '/ a: b \\ \n',
     '$ a \\ $\n', '$a \\ b$\n', 'a \\ b\n', '#f($a \\ $)\n', '$f(a \\ , b)$\n', '$f(a; b \\ )$\n', '$vec(a \\ b)$\n', '#[$a \\ $]\n', '#[\n  a \\ \n]\n', '#f[a \\ ][b]\n',
     '$ a \\ \n$\n', '$\n  a \\ \n  b\n$\n', '#[- a \\ \n]\n', '/ a \\ : b\n',
+    '$mat(a \\ , b; c)$\n', '$mat(a, b \\ ; c)$\n', '$mat(a; b \\ )$\n', '#f[+ a \\ ]\n', '#[a \\ ][b]\n', '#strong[a \\ ]\n', '$f(x)(a \\ )$\n', '#table([a \\ ])\n',
+    '$a_(b \\ )$\n', '$sqrt(a \\ )$\n', '$[a \\ ]$\n', '$(a \\ )/b$\n', '#f(a)[b \\ ]\n', '$f(#x \\ )$\n', '#f[/ t \\ : d]\n', '/ t: d \\ \n', '#[*a \\ *]\n', '#[= a \\ ]\n',
+    '$lr((a \\ ))$\n', '$a \\ /* c */$\n', '$mat(a \\ /* c */)$\n', '$f(a \\ ,)$\n', '$f(..a \\ )$\n', '$f(k: a \\ )$\n', '$f(k: a \\ , b)$\n', '$mat(a \\ ,; b)$\n',
     # line comments before closing delimiters
     '#f(a // c\n)\n', '#(a, // c\n)\n', '$f(a // c\n)$\n', '#[a // c\n]\n', '$a // c\n$\n', '#{a // c\n}\n', '#let f(a // c\n) = 1\n', '#import "a": (b // c\n)\n',
     '#f(a)[b // c\n]\n', '#a.b // c\n.c\n', '#(a // c\n+ b)\n',
